@@ -49,12 +49,12 @@ P = {
  "C08": (True, "value-flow key agreement, must-pass pairing, finite predicate abstraction (truth table) of the sweep condition, constant tables (go/ssa)",
          "Decides: the timeout map is keyed by the same function of (phantom, transport identifier) as the registration map at insertion and activation (so each tracked registration has its own record for every history of secrets/transports/families); "
          "both maps are inserted into / deleted from on the same paths and empty per-phantom maps are removed; the sweep selects a record iff (unused && age>T_unused) || age>T_active, exhaustively over all valuations of its atoms; T_unused=10 min and T_active=6 h with no other writer; activation flips the looked-up record; a ticker loop sweeps. "
-         "These are history-independent structural conditions; set-level behaviour over concrete histories and wall-clock timing are not decided.",
+         "These are history-independent structural conditions; set-level behaviour over concrete histories and wall-clock timing are not decided. Also decided: connection lookups are computed from the live table on every call (no memoised set can survive a removal).",
          "4/C08"),
  "C14": (True, "effect analysis over the static call closure of the selection entry points, guard dominance, constant evaluation at call sites, value-flow of the port flag (go/ssa)",
          "Decides: nothing reachable from Select/SelectPhantom* reads or writes process-global state (math/rand globals, weightedrand global Pick, time, package variables), so a result depends on its inputs alone under any schedule; "
          "addresses are rendered at fixed family width; every crypto/rand.Int bound is a positive constant at all call sites or dominated by a positivity test (selection fails with an error instead of panicking); the family filter matching v6Support feeds each selection routine; "
-         "the address is built only under offset < netSize with a two-sided subnet match; the port-randomisation flag flows from the matched subnet's configuration. Arithmetic containment for every CIDR and uniformity are not decided.",
+         "the address is built only under offset < netSize with a two-sided subnet match; the port-randomisation flag flows from the matched subnet's configuration. Arithmetic containment for every CIDR and uniformity are not decided. Also decided: selection code never writes into memory reachable from its inputs (no element/field/map store, no append to a re-slice, no in-place sort of the configuration), and every subnet base is network-aligned (net.ParseCIDR network or a masked address).",
          "4/C14"),
  "C15": (True, "narrowing-conversion rule (bound / mask / round-trip idioms with dominance), sibling constant agreement, must-pass freshness, who-constructs names (go/ssa)",
          "Decides for all inputs: no encoder in the registration channels narrows a length or count to uint8/uint16 unless the value provably fits (dominating bound, mask/shift, or round-trip test whose failing edge leaves the function), i.e. unrepresentable values are rejected, not altered; "
@@ -73,7 +73,7 @@ P = {
  "C16": (True, "must-pass pairing with defers, lockset guarded-by, value-flow key agreement, read-then-err path rule, guard dominance, constant comparison (go/ssa)",
          "Decides: listener registrations (certificate, channel) are released on every exit of an accept; the routing maps and the SCTP read state are only touched under their mutexes; registration, routing, verification and certificate selection use the hello-random / certificates derived from the same PSK with consistent client/server roles on listener, stand-alone server and dialer; "
          "data returned together with a stream error is delivered before the error on the heartbeat receive loop, hbConn.Read and SCTPConn.Read, and heartbeats are filtered before delivery; writes pass the size limit and the flow-control test/wait; the client heartbeat period is below the server watchdog. "
-         "Handshake outcomes, cross-delivery under concrete schedules and watchdog timing are not decided.",
+         "Handshake outcomes, cross-delivery under concrete schedules and watchdog timing are not decided. Also decided: the heartbeat watchdog clears the received flag between two inspections, and only the low-watermark case of the flow-control select continues to the write.",
          "4/C16"),
  "C17": (True, "interprocedural taint analysis over go/ssa (context-insensitive, type-based field cells, function values followed through closures/fields/returns): sources = remote/registrant addresses and errors of client-connection operations, sinks = log calls that emit at the default level (set computed from pkg/station/log) incl. logger prefixes and serialised statistics records; guard dominance for the LOG_CLIENT_IP gate",
          "Decides, over-approximately and for every error value and outcome: no value that may textually contain a client address (RemoteAddr, the registrant address, any error returned by an operation on an accepted / wrapped / dialled client connection, and anything derived from those through assignments, fields, containers, closures, repository calls and external calls) reaches a logger call that writes at the default level, a logger prefix, fmt.Print*, or a field of the tunnel-summary / expiry records; sanitisers are recognised structurally (a function whose returns are nil, package sentinels or errno values returns clean data) - the pre-repair sanitisers that returned unknown errors unchanged were reported and repaired. "
@@ -103,7 +103,7 @@ P = {
  "C12": (True, "must-alias (must-equal set) dataflow for the response object, must-pass/guard dominance, who-may-read, loop-exit shape rules (go/ssa)",
          "Decides: client-supplied response cleared on every path into processing; the forwarded wrapper is rebuilt from a fresh object with signature fields only from the registrar's own Marshal/Sign; at every successful return the pointer handed to the client is provably the object attached to the forwarded wrapper (must-equal analysis with Override modelled as havoc); "
          "parameter overrides gated by the client's flag on registrar and station; the station applies the response's port and the address of its own family; each weighted override loop exits at its first match; exclusions precede any address override. "
-         "Object identity and gating hold for all inputs/configurations; equality after protobuf serialisation and the random-address arithmetic are not decided.",
+         "Object identity and gating hold for all inputs/configurations; equality after protobuf serialisation and the random-address arithmetic are not decided. Also decided: the station applies each field of the forwarded response whenever the response carries it (a reachability game in which every condition other than tests of the response, the family flag and the client opt-out is played by an adversary), and the substituted address is drawn from exactly [base, base + 2^(bits-ones)).",
          "4/C12"),
  "C13": (True, "lockset analysis (may/must) + dominance on go/ssa",
          "Decides on all paths: no registrar mutex is re-acquired while possibly held (the RWMutex reader re-entrancy deadlock), "
